@@ -30,7 +30,7 @@ COMPLETE_STATUSES = (gen.N, gen.N, gen.N, gen.N0, gen.NH, gen.Z, gen.ZN, gen.B, 
 
 
 def parts(tier):
-    return [{"name": "pairs", "n": 256 if tier == "quick" else 3200}]
+    return [{"name": "pairs", "n": 352 if tier == "quick" else 3200}]
 
 
 @gen.st.composite
